@@ -9,17 +9,19 @@ import tempfile
 from .common import *   # noqa: F401,F403
 from . import instr_gen as ig
 
-RULE = ("a base chart (Song, SyncTrack, Events and a random subset of the 40 '<Difficulty><Instrument>' sections; every header is used as a singleton in thorough) is rendered in variants: "
+RULE = ("a base chart (Song, SyncTrack, Events (sometimes empty) and a random subset of the 40 '<Difficulty><Instrument>' sections; every header is used as a singleton in thorough) is rendered in variants: "
         "random permutations of the sections, LF or CRLF line endings, with or without a UTF-8 byte-order mark (written to a real temporary file and read by Chart.from_filepath) or through "
-        "Chart.from_file(StringIO), unknown sections inserted anywhere (names that merely start with a valid header such as ExpertSingleBackup, names with blanks, bodies containing header-like "
+        "Chart.from_file(StringIO); by-path files carry non-ASCII text (2-, 3- and 4-byte sequences) and a stream of them is damaged into invalid UTF-8 (0xFF byte, overlong form, surrogate, stray continuation, truncated sequence: ValueError on both sides); unknown sections inserted anywhere (names that merely start with a valid header such as ExpertSingleBackup, names with blanks, bodies containing header-like "
         "lines at column 0, other sections' lines, indented braces), each required section removed in turn; judged against the implementation's parse of the canonical rendering: equal metadata / "
         "sync / events, tracks equal as a finite map stored under exactly the expected (instrument, difficulty) keys and labelled with them, chartparse.chart log = one record per unknown "
         "section, ValueError when a required section is missing. Non-trivial: every variant that differs from the canonical rendering; distinct by (text, mode)")
-ASSUMPTIONS = ["UTF-8 byte decoding itself is CPython's codec and is not modelled: the model starts from the decoded code points (BOM as U+FEFF, CRLF still present)",
+ASSUMPTIONS = ["by path the model starts from the file's BYTES: utf-8-sig decoding is the hand-written codec model Base/Utf8.v (proved a bijection on valid UTF-8), compared with CPython's codec on every by-path case incl. undecodable files; through from_file(StringIO) it starts from code points",
                "section names are distinct, non-empty and free of line breaks; no body line is exactly '{' or '}' (the property's well-formed files)"]
 
 IN_TYPE = "(C06_aux * C06_in)"
 VERDICT = "fun i o => C06_verdict cfg (snd i) o"
+B_IN_TYPE = "(C06_aux * C06b_in)"
+B_VERDICT = "fun i o => C06b_verdict cfg (snd i) o"
 SPEC = "fun i o => C06_spec (fst i) o"
 
 INSTR = ["Single", "DoubleGuitar", "DoubleBass", "DoubleRhythm", "Drums", "Keyboard", "GHLGuitar", "GHLBass", "GHLRhythm", "GHLCoop"]
@@ -48,14 +50,33 @@ UNKNOWN_BODIES = [
 ]
 
 
-def run_impl(text, by_path, bom, want, tmpdir):
+def file_bytes(text, bom, damage=None):
+    data = text.encode("utf-8")
+    if damage is not None:
+        kind, pos = damage
+        pos = pos % (len(data) + 1)
+        if kind == "ff":
+            data = data[:pos] + b"\xff" + data[pos:]
+        elif kind == "overlong":
+            data = data[:pos] + b"\xc0\xaf" + data[pos:]
+        elif kind == "surrogate":
+            data = data[:pos] + b"\xed\xa0\x80" + data[pos:]
+        elif kind == "cont":
+            data = data[:pos] + b"\x80" + data[pos:]
+        else:   # truncate the last (multi-byte) character of the file's non-ASCII title
+            i = data.find("歌".encode("utf-8"))
+            data = data[:i + 2] + data[i + 3:] if i >= 0 else data + b"\xe6\xad"
+    if bom:
+        data = b"\xef\xbb\xbf" + data
+    return data
+
+
+def run_impl(text, by_path, bom, want, tmpdir, damage=None):
     import chartparse.chart as chart_mod
     if not by_path:
         return parse_case(text, want)
     path = os.path.join(tmpdir, "c.chart")
-    data = text.encode("utf-8")
-    if bom:
-        data = b"\xef\xbb\xbf" + data
+    data = file_bytes(text, bom, damage)
     with open(path, "wb") as f:
         f.write(data)
     with pyval.capture_logs() as cap:
@@ -79,7 +100,8 @@ def make_case(base_secs, variant, tmpdir):
     for pos, tag, body in variant.get("unknown", []):
         secs.insert(min(pos, len(secs)), (tag, body))
     text = render(secs, variant["nl"])
-    ch, exc, out = run_impl(text, variant["by_path"], variant["bom"], None, tmpdir)
+    damage = variant.get("damage")
+    ch, exc, out = run_impl(text, variant["by_path"], variant["bom"], None, tmpdir, damage)
     decoded = ("﻿" if (variant["by_path"] and variant["bom"]) else "") + text
     ivals, dvals = instr_diff()
     keys = []
@@ -89,22 +111,28 @@ def make_case(base_secs, variant, tmpdir):
                 if tag == d + i:
                     keys.append((i, d))
     aux = "(%s, %s, %s, %s)" % (out0, coq_list(coq_str(t) for _, t, _ in variant.get("unknown", [])),
-                                coq_list("(%s, %s)" % (coq_str(i), coq_str(d)) for i, d in keys), coq_bool(bool(variant.get("remove"))))
-    inp = "(%s, %s, None)" % (coq_bool(variant["by_path"]), coq_str(decoded))
+                                coq_list("(%s, %s)" % (coq_str(i), coq_str(d)) for i, d in keys), coq_bool(bool(variant.get("remove")) or damage is not None))
+    if variant["by_path"]:
+        # by path the model starts from the BYTES of the file (utf-8-sig codec, universal newlines)
+        inp = "(%s, None)" % coq_list("%d%%N" % b for b in file_bytes(text, variant["bom"], damage))
+    else:
+        inp = "(%s, %s, None)" % (coq_bool(False), coq_str(decoded))
     trivial = variant["order"] == list(range(len(base_secs))) and variant["nl"] == "\n" and not variant["bom"] and not variant.get("unknown") and not variant.get("remove")
     return dict(case=dict(base=[[t, b] for t, b in base_secs], variant=variant, text=text),
                 in_term="(%s, %s)" % (aux, inp), out_term=out, nontrivial=not trivial,
                 tags=["nl=" + ("CRLF" if variant["nl"] == "\r\n" else "LF"), "bom" if variant["bom"] else "nobom", "path" if variant["by_path"] else "stringio",
                       "unknown=%d" % len(variant.get("unknown", [])), "removed" if variant.get("remove") else "complete",
+                      "undecodable" if damage is not None else "decodable",
                       "impl_error" if exc is not None else "impl_ok"],
                 signature="C06:" + key_of([text, variant["by_path"], variant["bom"]]))
 
 
 def base_chart(rng, headers):
     R = 192
-    secs = [("Song", ["  Name = \"n\"", "  Resolution = %d" % R, "  Player2 = bass"]),
+    secs = [("Song", ["  Name = \"Beyoncé 歌 ́\"", "  Resolution = %d" % R, "  Player2 = bass"]),
             ("SyncTrack", ["  0 = TS 4", "  0 = B 120000", "  0 = A 0", "  768 = B 90000", "  768 = A 3500000", "  768 = TS 3 3"]),
-            ("Events", ['  0 = E "section a"', '  100 = E "lyric b"', '  200 = E "c"'])]
+            # an [Events] section that is present but empty is a perfectly good required section
+            ("Events", ['  0 = E "section a"', '  100 = E "lyric b"', '  200 = E "c"'] if rng.random() < 0.8 else [])]
     for k, h in enumerate(headers):
         groups = ig.gen_groups(rng, R, rng.choice([0, 1, 3]) or 1)
         lines = ["  " + l for l in ig.section_lines(rng, groups, R, junk=False)]
@@ -127,6 +155,9 @@ def gen_variant(rng, n):
             v["unknown"].append((rng.randint(0, n + 2), tag, rng.choice(UNKNOWN_BODIES)))
     elif r < 0.55:
         v["remove"] = rng.choice(["Song", "SyncTrack", "Events"])
+    elif r < 0.65 and by_path:
+        # invalid UTF-8 somewhere in the file: UnicodeDecodeError, a ValueError
+        v["damage"] = [rng.choice(["ff", "overlong", "surrogate", "cont", "truncate"]), rng.randrange(10 ** 6)]
     return v
 
 
@@ -164,7 +195,14 @@ def run(ctx, only=None):
             cs = cases(ctx, 130 if ctx["tier"] == "quick" else 4000, tmpdir)
     finally:
         shutil.rmtree(tmpdir, ignore_errors=True)
-    return run_cases("C06", cs, IN_TYPE, PARSE_OUT, VERDICT, SPEC, shard_size=12)
+    return split_run("C06", cs)
+
+
+def split_run(name, cs):
+    a = [c for c in cs if not c["case"]["variant"]["by_path"]]
+    b = [c for c in cs if c["case"]["variant"]["by_path"]]
+    return merge([run_cases(name, a, IN_TYPE, PARSE_OUT, VERDICT, SPEC, shard_size=12),
+                  run_cases(name + "b", b, B_IN_TYPE, PARSE_OUT, B_VERDICT, SPEC, shard_size=10)])
 
 
 def search(ctx, result):
@@ -173,7 +211,7 @@ def search(ctx, result):
         cs = cases(ctx, 600, tmpdir)
     finally:
         shutil.rmtree(tmpdir, ignore_errors=True)
-    r = run_cases("C06s", cs, IN_TYPE, PARSE_OUT, VERDICT, SPEC, shard_size=12)
+    r = split_run("C06s", cs)
     return dict(viol=r["viol"], evaluations=r["evaluations"], note="re-sampled %d cases" % len(cs))
 
 
